@@ -522,28 +522,77 @@ func vC20Direct(o *vC20Out, r *rand.Rand, n int) {
 			o.emit(fmt.Sprintf("ede-%v", res), fmt.Sprintf("CaseEde %d %s %s", rc, c, vC20Bool(res)), map[string]any{"rcode": rc, "ede": code, "isDNSSECFailure": res}, rc == 2, "", "")
 		}
 	}
-	vC20EdeConsts(o)
+	vC20Cidr(o, r, n/10+20)
 }
 
-// emitted in a fixed order (a Go map iterates randomly)
-func vC20EdeConsts(o *vC20Out) {
-	names := []string{"Other", "UnsupportedDNSKEYAlgorithm", "UnsupportedDSDigestType", "StaleAnswer", "ForgedAnswer", "DNSSECIndeterminate",
-		"DNSBogus", "SignatureExpired", "SignatureNotYetValid", "DNSKEYMissing", "RRSIGsMissing", "NoZoneKeyBitSet", "NSECMissing", "CachedError",
-		"NotReady", "Blocked", "Censored", "Filtered", "Prohibited", "StaleNXDOMAINAnswer", "NotAuthoritative", "NotSupported",
-		"NoReachableAuthority", "NetworkError", "InvalidData", "SignatureExpiredBeforeValid", "TooEarly", "UnsupportedNSEC3IterValue",
-		"UnableToConformToPolicy", "Synthesized", "InvalidQueryType"}
-	codes := []uint16{dns.ExtendedErrorCodeOther, dns.ExtendedErrorCodeUnsupportedDNSKEYAlgorithm, dns.ExtendedErrorCodeUnsupportedDSDigestType,
-		dns.ExtendedErrorCodeStaleAnswer, dns.ExtendedErrorCodeForgedAnswer, dns.ExtendedErrorCodeDNSSECIndeterminate, dns.ExtendedErrorCodeDNSBogus,
-		dns.ExtendedErrorCodeSignatureExpired, dns.ExtendedErrorCodeSignatureNotYetValid, dns.ExtendedErrorCodeDNSKEYMissing,
-		dns.ExtendedErrorCodeRRSIGsMissing, dns.ExtendedErrorCodeNoZoneKeyBitSet, dns.ExtendedErrorCodeNSECMissing, dns.ExtendedErrorCodeCachedError,
-		dns.ExtendedErrorCodeNotReady, dns.ExtendedErrorCodeBlocked, dns.ExtendedErrorCodeCensored, dns.ExtendedErrorCodeFiltered,
-		dns.ExtendedErrorCodeProhibited, dns.ExtendedErrorCodeStaleNXDOMAINAnswer, dns.ExtendedErrorCodeNotAuthoritative,
-		dns.ExtendedErrorCodeNotSupported, dns.ExtendedErrorCodeNoReachableAuthority, dns.ExtendedErrorCodeNetworkError,
-		dns.ExtendedErrorCodeInvalidData, dns.ExtendedErrorCodeSignatureExpiredBeforeValid, dns.ExtendedErrorCodeTooEarly,
-		dns.ExtendedErrorCodeUnsupportedNSEC3IterValue, dns.ExtendedErrorCodeUnableToConformToPolicy, dns.ExtendedErrorCodeSynthesized,
-		dns.ExtendedErrorCodeInvalidQueryType}
-	for i, nm := range names {
-		o.emit("edeconst", fmt.Sprintf("CaseEdeConst %s %d", vC20Bs(nm), codes[i]), map[string]any{"const": "dns.ExtendedErrorCode" + nm, "value": codes[i]}, false, "", "")
+// net.ParseCIDR on IPv4 / IPv6 text against Model.parse_cidr4 / parse_cidr6
+// (the parsers that read the source literals): canonical, expanded,
+// upper-case, zero-padded and malformed spellings
+func vC20Cidr(o *vC20Out, r *rand.Rand, n int) {
+	for i := 0; i < n; i++ {
+		var txt string
+		if r.Intn(4) == 0 {
+			ip := vC20RandV4(r)
+			txt = fmt.Sprintf("%s/%d", ip, r.Intn(34))
+			switch r.Intn(8) {
+			case 0:
+				txt = fmt.Sprintf("0%d.%d.%d.%d/8", ip[0], ip[1], ip[2], ip[3])
+			case 1:
+				txt = fmt.Sprintf("%d.%d.%d/8", ip[0], ip[1], ip[2])
+			case 2:
+				txt = fmt.Sprintf("%d.%d.%d.%d", ip[0], ip[1], ip[2], ip[3])
+			case 3:
+				txt = fmt.Sprintf("%d.%d.%d.%d/08", ip[0], ip[1], ip[2], ip[3])
+			case 4:
+				txt = fmt.Sprintf("%d.%d.%d.256/8", ip[0], ip[1], ip[2])
+			}
+		} else {
+			ip := vC20RandV6(r)
+			for j := 0; j < 16; j += 2 { // runs of zero groups
+				if r.Intn(3) == 0 {
+					ip[j], ip[j+1] = 0, 0
+				}
+			}
+			if r.Intn(4) == 0 {
+				ip[0], ip[1] = 0, 0
+			}
+			if r.Intn(4) == 0 {
+				ip[14], ip[15] = 0, 0
+			}
+			bits := r.Intn(130)
+			addr := ip.String()
+			switch r.Intn(10) {
+			case 0: // all eight groups, zero padded
+				addr = fmt.Sprintf("%04x:%04x:%04x:%04x:%04x:%04x:%04x:%04x", uint16(ip[0])<<8|uint16(ip[1]), uint16(ip[2])<<8|uint16(ip[3]),
+					uint16(ip[4])<<8|uint16(ip[5]), uint16(ip[6])<<8|uint16(ip[7]), uint16(ip[8])<<8|uint16(ip[9]), uint16(ip[10])<<8|uint16(ip[11]),
+					uint16(ip[12])<<8|uint16(ip[13]), uint16(ip[14])<<8|uint16(ip[15]))
+			case 1:
+				addr = strings.ToUpper(addr)
+			case 2:
+				addr = addr + ":1"
+			case 3:
+				addr = strings.Replace(addr, ":", "::", 1)
+			case 4:
+				addr = "1:2:3:4:5:6:7::"
+			case 5:
+				addr = "1:2:3:4:5:6:7:8::"
+			case 6:
+				addr = []string{"::", "::1", "1::", ":1::", "1:::2", "12345::", "g::", "1:2:3:4:5:6:7", "1:2:3:4:5:6:7:8:9", ""}[r.Intn(10)]
+			}
+			txt = fmt.Sprintf("%s/%d", addr, bits)
+			if r.Intn(15) == 0 {
+				txt = addr
+			}
+		}
+		if strings.Contains(txt, "%") || (strings.Contains(txt, ":") && strings.Contains(strings.SplitN(txt, "/", 2)[0], ".")) {
+			continue // zones and dotted-quad tails are outside the modelled parser
+		}
+		_, nw, err := net.ParseCIDR(txt)
+		res := "None"
+		if err == nil {
+			res = "(Some " + vC20Net(nw) + ")"
+		}
+		o.emit(fmt.Sprintf("cidr-%v", err == nil), fmt.Sprintf("CaseCidr %s %s", vC20Bs(txt), res), map[string]any{"text": txt, "parsed": fmt.Sprint(nw, err)}, true, "", "")
 	}
 }
 
@@ -919,12 +968,27 @@ type vC20Scenario struct {
 
 func vC20Serve(o *vC20Out, r *rand.Rand, n int) {
 	for i := 0; i < n; i++ {
-		sc := &vC20Scenario{cfg: vC20RandConfig(r), wf: true}
-		d := New(sc.cfg)
-		if d == nil {
+		sc := vC20Gen(o, r, i%11 == 0, false)
+		if sc == nil {
 			continue
 		}
-		if i%11 == 0 {
+		vC20Run(o, sc, r.Intn(2) == 0)
+	}
+}
+
+// one generated scenario; wire: for the UDP driver (loopback client, always a
+// downstream reply, no context-only inputs)
+func vC20Gen(o *vC20Out, r *rand.Rand, emitCompile, wire bool) *vC20Scenario {
+	{
+		sc := &vC20Scenario{cfg: vC20RandConfig(r), wf: true}
+		if wire && len(sc.cfg.DNS64.ClientNetworks) > 0 && r.Intn(2) == 0 {
+			sc.cfg.DNS64.ClientNetworks = append(sc.cfg.DNS64.ClientNetworks, "127.0.0.0/8")
+		}
+		d := New(sc.cfg)
+		if d == nil {
+			return nil
+		}
+		if emitCompile {
 			cfg := sc.cfg
 			o.emit("compile", fmt.Sprintf("CaseCompile %s %s", vC20Config(cfg), vC20Compiled(d.cfg)),
 				map[string]any{"prefixes": cfg.DNS64.Prefixes, "clients": cfg.DNS64.ClientNetworks, "zones": cfg.DNS64.ExcludeZones,
@@ -1019,11 +1083,11 @@ func vC20Serve(o *vC20Out, r *rand.Rand, n int) {
 				sc.aResp, sc.wf = vC20RandA(r, qname)
 			}
 		}
-		sc.work = !sc.wireBorn && r.Intn(12) == 0
+		sc.work = !wire && !sc.wireBorn && r.Intn(12) == 0
 		if sc.work && sc.down != nil && r.Intn(2) == 0 {
 			sc.down.Rcode = dns.RcodeServerFailure
 		}
-		vC20Run(o, sc, r.Intn(2) == 0)
+		return sc
 	}
 }
 
@@ -1157,60 +1221,60 @@ func vC20Run(o *vC20Out, sc *vC20Scenario, passNontrivial bool) {
 		desc, k != "serve-pass" || passNontrivial, "", fkey)
 }
 
-// fixed scenarios replayed first: the witnesses of the refuted theorems and
-// the repository's own headline examples
-func vC20Fixed(o *vC20Out) {
-	mkReq := func(qname string, qtype uint16) *dns.Msg {
-		req := new(dns.Msg)
-		req.SetQuestion(qname, qtype)
-		req.SetEdns0(1232, true)
-		return req
-	}
-	nodata := func(qname string, soaTTL, minttl uint32, ad bool) *dns.Msg {
-		m := new(dns.Msg)
-		m.SetQuestion(qname, dns.TypeAAAA)
-		m.Response = true
-		m.RecursionAvailable = true
-		m.AuthenticatedData = ad
-		m.SetEdns0(1232, true)
-		m.Ns = []dns.RR{&dns.SOA{Hdr: dns.RR_Header{Name: "t.", Rrtype: dns.TypeSOA, Class: dns.ClassINET, Ttl: soaTTL}, Ns: "ns.t.", Mbox: "h.t.", Serial: 1, Minttl: minttl}}
-		return m
-	}
-	aresp := func(qname string, ttl uint32, ips ...string) *dns.Msg {
-		m := new(dns.Msg)
-		m.SetQuestion(qname, dns.TypeA)
-		m.Response = true
-		for _, ip := range ips {
-			m.Answer = append(m.Answer, &dns.A{Hdr: dns.RR_Header{Name: qname, Rrtype: dns.TypeA, Class: dns.ClassINET, Ttl: ttl}, A: net.ParseIP(ip).To4()})
+// thorough tier only: small scopes enumerated completely
+//   - every legal length x four prefix shapes x every boundary IPv4 address (embed + extract),
+//   - every legal length x every single-bit change of an embedded address (extract),
+//   - SERVFAIL x every ordered pair of EDE codes 0..30 through the handler.
+func vC20Exhaustive(o *vC20Out) {
+	shapes := []string{"2001:db8:122:344:5:6:7:8", "::", "ffff:ffff:ffff:ffff:ff:ffff:ffff:ffff", "::ffff:0:0"}
+	for _, bits := range vC20LegalBits {
+		for _, sh := range shapes {
+			_, p, err := net.ParseCIDR(fmt.Sprintf("%s/%d", sh, bits))
+			if err != nil || validatePrefix(p) != nil {
+				continue
+			}
+			for _, a := range vC20BoundaryV4 {
+				v4 := net.ParseIP(a).To4()
+				emb := embedIPv4(p, v4)
+				ext, ok := extractIPv4(p, emb)
+				goFail := ""
+				if ref := vC20RefEmbed(p, v4); !ref.Equal(emb) {
+					goFail = fmt.Sprintf("embedIPv4(%s, %s) = %x, RFC 6052 reference %x", p, v4, []byte(emb), []byte(ref))
+				}
+				o.emit(fmt.Sprintf("x-embed-%d", bits), fmt.Sprintf("CaseEmbed %s %s true %s %s", vC20Net(p), vC20Hx(v4), vC20Hx(emb), vC20OptBytes(ext, ok)),
+					map[string]any{"prefix": p.String(), "v4": a, "embedded": emb.String(), "extracted": fmt.Sprint(ext, ok)}, true, goFail, "")
+			}
 		}
-		return m
+		_, p, _ := net.ParseCIDR(fmt.Sprintf("2001:db8:122:344::/%d", bits))
+		base := embedIPv4(p, net.IPv4(192, 0, 2, 33).To4())
+		for bit := 0; bit < 128; bit++ {
+			addr := append(net.IP{}, base...)
+			addr[bit/8] ^= 0x80 >> (bit % 8)
+			ext, ok := extractIPv4(p, addr)
+			o.emit(fmt.Sprintf("x-extract-%d-%v", bits, ok), fmt.Sprintf("CaseExtract %s %s %s", vC20Net(p), vC20Hx(addr), vC20OptBytes(ext, ok)),
+				map[string]any{"prefix": p.String(), "addr": addr.String(), "flipped_bit": bit, "extracted": fmt.Sprint(ext, ok)}, true, "", "")
+		}
 	}
-	wkp := func() *config.Config {
-		c := &config.Config{}
-		c.DNS64.Enabled = true
-		c.DNS64.Prefixes = []string{"64:ff9b::/96"}
-		return c
-	}
-	client := net.ParseIP("203.0.113.9")
-	for _, soa := range [][2]uint32{{3600, 60}, {3600, 0}, {0, 60}, {0, 0}, {30, 3600}} {
-		vC20Run(o, &vC20Scenario{cfg: wkp(), req: mkReq("h.ex.t.", dns.TypeAAAA), hasOPT: true, client: client,
-			down: nodata("h.ex.t.", soa[0], soa[1], true), alKind: 5, aResp: aresp("h.ex.t.", 300, "192.0.9.1", "10.0.0.1"), wf: true}, true)
-	}
-	// validated AAAA answer made only of IPv4-mapped records, nothing to synthesise from
-	m := nodata("h.ex.t.", 3600, 60, true)
-	m.Ns = nil
-	m.Answer = []dns.RR{&dns.AAAA{Hdr: dns.RR_Header{Name: "h.ex.t.", Rrtype: dns.TypeAAAA, Class: dns.ClassINET, Ttl: 60}, AAAA: net.ParseIP("::ffff:1.2.3.4")}}
-	vC20Run(o, &vC20Scenario{cfg: wkp(), req: mkReq("h.ex.t.", dns.TypeAAAA), hasOPT: true, client: client,
-		down: m, alKind: 5, aResp: aresp("h.ex.t.", 300, "10.0.0.1"), wf: true}, true)
-	// all-zero /56 and /64 prefixes: the embedded address is in ::ffff:0:0/96 form
-	for _, c := range [][2]string{{"::/56", "0.0.255.255"}, {"::/64", "0.255.255.7"}, {"::/56", "1.0.255.255"}} {
-		cf := &config.Config{}
-		cf.DNS64.Enabled = true
-		cf.DNS64.Prefixes = []string{c[0]}
-		_, p, _ := net.ParseCIDR(c[0])
-		addr := embedIPv4(p, net.ParseIP(c[1]).To4())
-		vC20Run(o, &vC20Scenario{cfg: cf, req: mkReq(vC20ArpaName(addr), dns.TypePTR), hasOPT: true, client: client,
-			down: nodata(vC20ArpaName(addr), 60, 60, false), alKind: 4, wf: true}, true)
+	for e1 := 0; e1 <= 30; e1++ {
+		for e2 := 0; e2 <= 30; e2++ {
+			cfg := &config.Config{}
+			cfg.DNS64.Enabled = true
+			req := new(dns.Msg)
+			req.SetQuestion("h.ex.t.", dns.TypeAAAA)
+			req.SetEdns0(1232, true)
+			down := new(dns.Msg)
+			down.SetQuestion("h.ex.t.", dns.TypeAAAA)
+			down.Response = true
+			down.Rcode = dns.RcodeServerFailure
+			down.SetEdns0(1232, true)
+			down.IsEdns0().Option = append(down.IsEdns0().Option, &dns.EDNS0_EDE{InfoCode: uint16(e1)}, &dns.EDNS0_EDE{InfoCode: uint16(e2)})
+			a := new(dns.Msg)
+			a.SetQuestion("h.ex.t.", dns.TypeA)
+			a.Response = true
+			a.Answer = []dns.RR{&dns.A{Hdr: dns.RR_Header{Name: "h.ex.t.", Rrtype: dns.TypeA, Class: dns.ClassINET, Ttl: 300}, A: net.IPv4(192, 0, 9, 1).To4()}}
+			vC20Run(o, &vC20Scenario{cfg: cfg, req: req, hasOPT: true, wireBorn: (e1+e2)%2 == 0, client: net.ParseIP("203.0.113.9"),
+				down: down, alKind: 5, aResp: a, wf: true}, true)
+		}
 	}
 }
 
@@ -1247,7 +1311,10 @@ func TestVerifC20(t *testing.T) {
 	o := &vC20Out{f: f}
 	seed := int64(vC20EnvInt("VERIF_SEED", 1))
 	n := vC20EnvInt("VERIF_N", 1200)
-	vC20Fixed(o)
+	vC20ReplayCorpus(t, o)
+	if os.Getenv("VERIF_TIER") == "thorough" {
+		vC20Exhaustive(o)
+	}
 	vC20Direct(o, rand.New(rand.NewSource(seed*7919+20)), n)
 	vC20Serve(o, rand.New(rand.NewSource(seed*104729+20)), n)
 }
